@@ -10,7 +10,7 @@ RULE = ("call sequences computed by TLC: every sequence of CertificateBuilder ca
 ASSUME = [common.TRUSTED, "extension family: grows the specification beyond the listed properties; the builder histories are also part of C19"]
 META = None
 
-INVS = ["BuilderRefines", "BuildIdempotent", "KeyTypesHonoured", "FailedCallsChangeNothing", "CountFitsByte", "SizeKept", "NonEmptyKeys"]
+INVS = ["BuilderRefines", "BuildIdempotent", "KeyTypesHonoured", "FailedCallsChangeNothing", "CountFitsByte", "SizeKept", "NonEmptyKeys", "KeptUnchanged"]
 
 
 def mc_objects(run):
@@ -20,6 +20,8 @@ def mc_objects(run):
            tag="MC_Objects_firstwins", expect_violation="BuilderRefines")
     run.mc("MC_Objects", consts={"Kind": "builder", "Variant": "truncates"}, invariants=["BuilderRefines"],
            tag="MC_Objects_truncates", expect_violation="BuilderRefines")
+    run.mc("MC_Objects", consts={"Kind": "builder", "Variant": "shares-scratch"}, invariants=["KeptUnchanged"],
+           tag="MC_Objects_scratch", expect_violation="KeptUnchanged")
 
 
 def check(run):
